@@ -789,8 +789,14 @@ def set_positional_info(node, p):
     node.position.start_column = find_column(p.lexer.lexdata,
                                              node.position.start_stream)
     
-    _, node.position.end_stream = p.lexspan(len(p) - 1)
-    _, node.position.end_line = p.linespan(len(p) - 1)
+    # an empty trailing symbol (e.g. the empty block of an elif or else clause)
+    # has no end position of its own; the node ends with the symbol before it
+    last = len(p) - 1
+    while last > 1 and not hasattr(p.slice[last], 'endlexpos'):
+        last -= 1
+    
+    _, node.position.end_stream = p.lexspan(last)
+    _, node.position.end_line = p.linespan(last)
     node.position.end_column = find_column(p.lexer.lexdata,
                                              node.position.end_stream) - 1
     
